@@ -222,6 +222,85 @@ def validate_traces(chk, traces, seed):
             raise tlc.MachineryError('binding demo failed: corrupted failonerror trace accepted')
 
 
+def check_converter_forms(chk):
+    """The policy also governs converters given in the other documented FORMS (method name, method name with
+    arguments, dictionary, list of converters) and failures that come from a missing cell of a short row."""
+    import petl as etl
+    import petl.config
+    from collections import OrderedDict
+    t = [['r', 'a', 'b'], [1, u'x', u'y'], [2, None, u'z'], [3, u'w', None], [4, u'v', u'u']]
+    ragged = [['r', 'a', 'b'], [1, u'x', u'y'], [2, u'q'], [3], [4, u'v', u'u']]
+    up = lambda v: v.upper()
+    forms = [
+        ('convert({a: upper, b: (replace, y, Y)})', lambda kw: etl.convert(t, {'a': 'upper', 'b': ('replace', u'y', u'Y')}, **kw), t,
+         {1: lambda v: v.upper(), 2: lambda v: v.replace(u'y', u'Y')}),
+        ('convert([None, upper, upper])', lambda kw: etl.convert(t, [None, 'upper', 'upper'], **kw), t, {1: up, 2: up}),
+        ('convert((a, b), upper)', lambda kw: etl.convert(t, ('a', 'b'), 'upper', **kw), t, {1: up, 2: up}),
+        ('convertall(upper) on (a, b)', lambda kw: etl.convertall(etl.cut(t, 'a', 'b'), 'upper', **kw), [r[1:] for r in t], {0: up, 1: up}),
+        ('convert(a, {x: X}) - a dictionary never fails', lambda kw: etl.convert(t, 'a', {u'x': u'X'}, **kw), t, {1: lambda v: {u'x': u'X'}.get(v, v)}),
+        ('fieldmap over short rows', lambda kw: etl.fieldmap(ragged, OrderedDict([('r', 'r'), ('a', ('a', up)), ('b', ('b', up))]), **kw), ragged, {1: up, 2: up}),
+        ('fieldmap(lambda rec) over short rows', lambda kw: etl.fieldmap(ragged, OrderedDict([('r', 'r'), ('a', lambda rec: rec['a'].upper()), ('b', lambda rec: rec.b.upper())]), **kw),
+         ragged, {1: up, 2: up}),
+        ('convert over short rows', lambda kw: etl.convert(ragged, {'a': up, 'b': up}, **kw), ragged, {1: up, 2: up}),
+    ]
+    for name, mk, table, convs in forms:
+        is_fieldmap = name.startswith('fieldmap')
+        width = len(table[0])
+        for policy in ('false', 'true', 'inline'):
+            for ev in (None, u'EV', 0):
+                for via_config in (False, True):
+                    kw = {} if ev is None else {'errorvalue': ev}
+                    saved = petl.config.failonerror
+                    try:
+                        if via_config:
+                            petl.config.failonerror = POLICY[policy]
+                        else:
+                            kw['failonerror'] = POLICY[policy]
+                        try:
+                            v = mk(kw)
+                        finally:
+                            petl.config.failonerror = saved
+                        # the definition, row by row
+                        want, want_raise = [], False
+                        for row in table[1:]:
+                            cells = list(row) + ([None] * (width - len(row)) if is_fieldmap else [])
+                            out, failed = [], False
+                            for j, c in enumerate(cells):
+                                if j in convs:
+                                    try:
+                                        out.append(convs[j](c))
+                                    except Exception as e:
+                                        failed = True
+                                        out.append('EXC' if policy == 'inline' else ev)
+                                else:
+                                    out.append(c)
+                            if failed and policy == 'true':
+                                want_raise = True
+                                break
+                            want.append(tuple(out))
+                        got, raised = [], False
+                        it = iter(v)
+                        next(it)
+                        while True:
+                            try:
+                                r = next(it)
+                            except StopIteration:
+                                break
+                            except Exception:
+                                raised = True
+                                break
+                            got.append(tuple('EXC' if isinstance(c, BaseException) else c for c in r))
+                    except Exception as e:
+                        got, raised, want, want_raise = 'harness-visible exception %r' % (e,), None, None, None
+                    chk.count(('converter-form', name, policy, ev, via_config))
+                    chk.replayed += 1
+                    if got != want or raised != want_raise:
+                        chk.violation({'op': name.split('(')[0], 'policy': policy, 'kind': 'converter-form'},
+                                      '%s policy=%s (%s) errorvalue=%r: delivered %r raised=%s, definition %r raised=%s'
+                                      % (name, policy, 'config default' if via_config else 'argument', ev, got, raised, want, want_raise),
+                                      {'kind': 'converter-form', 'name': name})
+
+
 def run(tier, seed):
     chk = Check(PID, tier, seed)
     full = tier == 'thorough'
@@ -255,6 +334,7 @@ def run(tier, seed):
                     chk.count(('case-lazy', ci, via_config))
                     chk.replayed += 1
     chk.sample({'kind': 'failonerror-behaviour', 'case': cases[len(cases) // 2]})
+    check_converter_forms(chk)
     traces = record_traces(3000 if full else 400, seed)
     validate_traces(chk, traces, seed)
     chk.exhaustive = True
